@@ -369,7 +369,7 @@ func (api *API) ImportRoaring(ctx context.Context, indexName, fieldName string, 
 	span.LogKV("index", indexName, "field", fieldName)
 	defer span.Finish()
 
-	if err = api.validate(apiField); err != nil {
+	if err = api.validate(apiImport); err != nil {
 		return errors.Wrap(err, "validating api method")
 	}
 
